@@ -16,7 +16,7 @@ CHECKS = {
              "(FuzzAuth) byte strings decoded as raw opening bytes or as plaintext encrypted under one of six configured keys and then damaged at a fuzzer-chosen offset, judged by the same reference; "
              "run as a rapid property in both tiers and as a coverage-guided native fuzz target (150 s) in the thorough tier (evaluations then include the fuzzer's executions; its corpus size is reported as distinct cases).",
         assumptions=["AEAD/HKDF strength (forgery resistance) is assumed", "in-memory StreamConn stands in for a TCP socket"],
-        units=[unit("props", ["Auth", "FuzzAuth"], "C01"),
+        units=[unit("props", ["Auth", "Concurrent", "FuzzAuth"], "C01"),
                dict(bin="props-fuzz", tests=["FuzzAuth"], run="^$", fuzz="FuzzC01Auth", fuzztime="150s", shards=(1, 1), timeout=(400, 900), tiers=["thorough"], crash_is_violation=True)],
     ),
 }
@@ -28,7 +28,7 @@ CHECKS["C02"] = dict(
          "(1..16383 incl. boundaries), TCP write segmentation and pacing, 0..120 KB (thorough 2 MiB) per send. Non-trivial = >=2 chunks in some direction, or a "
          "half-close followed by traffic in the opposite direction, or an address split across chunks / coalesced with data. Distinct = canonical case JSON.",
     assumptions=["loopback only: no loss or reordering below TCP", "interleavings are those the kernel and scheduler produce under generated pacing"],
-    units=[unit("props", ["Relay", "Concurrent"], "C02")],
+    units=[unit("props", ["Relay", "Concurrent", "Duplex"], "C02")],
 )
 
 _UDP_GEN = ("rapid-generated datagram histories through the real PacketHandler on a real dual-stack UDP socket: 1..7 client sockets on 127.x.y.z/::1 "
@@ -74,7 +74,7 @@ CHECKS["C05"] = dict(
          "Non-trivial = address within 3 of a block boundary or in mapped/16-byte form (Func); must-reject or boundary address (Sweep, distinct by construction); "
          "mapped/zoned/IP-literal-domain/empty/multi-answer destination or forbidden datagram at position >=2 (TCP/UDP).",
     assumptions=["non-local forbidden destinations have no sink: judged by reported status only", "address classes available on this host are detected at run time"],
-    units=[unit("props", ["Func", "TCP", "UDP", "Shared"], "C05"), unit("props", ["Sweep"], "C05", shards=(4, 16), timeout=(240, 3000))],
+    units=[unit("props", ["FirstUse"], "C05"), unit("props-race", ["FirstUse"], "C05", crash_is_violation=True), unit("props", ["Func", "TCP", "UDP", "Shared"], "C05"), unit("props", ["Sweep"], "C05", shards=(4, 16), timeout=(240, 3000))],
 )
 
 CHECKS["C06"] = dict(
@@ -89,7 +89,7 @@ CHECKS["C06"] = dict(
          "Non-trivial = probe derived from a valid stream (truncate/flip/replay/reflect/foreign key/invalid-after-auth), or random bytes of length 48..52 or >66. "
          "Complete valid requests produced by a mutation (e.g. a flip beyond the header) are classified by the reference codec and not judged.",
     assumptions=["fake-time engine runs under go1.26.8 timer semantics (asynctimerchan=0)", "real-socket upper bounds are reported only if they reproduce 3 times in isolation"],
-    units=[unit("props26", ["FakeTime"], "C06"), unit("props", ["Real"], "C06")],
+    units=[unit("props26", ["FakeTime"], "C06"), unit("props", ["Real"], "C06"), unit("props", ["AcrossReload"], "C06", needs=["inpkg-main"])],
 )
 
 CHECKS["C07"] = dict(
@@ -122,7 +122,7 @@ CHECKS["C20"] = dict(
          "so a label can depend on nothing but the client's own address. Non-trivial = non-plain address form, non-global or mapped address, or non-hit database (Class); history with >=2 operations (Expo); "
          ">=2 global IPv6 clients or >=3 label groups (Multi).",
     assumptions=["'non-global' = loopback/unspecified/multicast/link-local/broadcast (the code's and existing tests' meaning; RFC1918 is looked up)", "zoned addresses may be XA or XL"],
-    units=[unit("props", ["Class", "Expo", "Multi", "Concurrent"], "C20")],
+    units=[unit("props", ["Class", "Expo", "Multi", "Concurrent", "E2E"], "C20")],
 )
 
 CHECKS["C17"] = dict(
@@ -234,7 +234,7 @@ CHECKS["C05"] = dict(
          "Non-trivial = address within 3 of a block boundary or in mapped/16-byte form (Func); must-reject or boundary address (Sweep, distinct by construction); "
          "mapped/zoned/IP-literal-domain/empty/multi-answer destination or forbidden datagram at position >=2 (TCP/UDP).",
     assumptions=["non-local forbidden destinations have no sink: judged by reported status only", "address classes available on this host are detected at run time"],
-    units=[unit("props", ["Func", "TCP", "UDP", "Shared"], "C05"), unit("props", ["Sweep"], "C05", shards=(4, 16), timeout=(240, 3000))],
+    units=[unit("props", ["FirstUse"], "C05"), unit("props-race", ["FirstUse"], "C05", crash_is_violation=True), unit("props", ["Func", "TCP", "UDP", "Shared"], "C05"), unit("props", ["Sweep"], "C05", shards=(4, 16), timeout=(240, 3000))],
 )
 
 CHECKS["C06"] = dict(
@@ -249,7 +249,7 @@ CHECKS["C06"] = dict(
          "Non-trivial = probe derived from a valid stream (truncate/flip/replay/reflect/foreign key/invalid-after-auth), or random bytes of length 48..52 or >66. "
          "Complete valid requests produced by a mutation (e.g. a flip beyond the header) are classified by the reference codec and not judged.",
     assumptions=["fake-time engine runs under go1.26.8 timer semantics (asynctimerchan=0)", "real-socket upper bounds are reported only if they reproduce 3 times in isolation"],
-    units=[unit("props26", ["FakeTime"], "C06"), unit("props", ["Real"], "C06")],
+    units=[unit("props26", ["FakeTime"], "C06"), unit("props", ["Real"], "C06"), unit("props", ["AcrossReload"], "C06", needs=["inpkg-main"])],
 )
 
 CHECKS["C07"] = dict(
@@ -282,7 +282,7 @@ CHECKS["C20"] = dict(
          "so a label can depend on nothing but the client's own address. Non-trivial = non-plain address form, non-global or mapped address, or non-hit database (Class); history with >=2 operations (Expo); "
          ">=2 global IPv6 clients or >=3 label groups (Multi).",
     assumptions=["'non-global' = loopback/unspecified/multicast/link-local/broadcast (the code's and existing tests' meaning; RFC1918 is looked up)", "zoned addresses may be XA or XL"],
-    units=[unit("props", ["Class", "Expo", "Multi", "Concurrent"], "C20")],
+    units=[unit("props", ["Class", "Expo", "Multi", "Concurrent", "E2E"], "C20")],
 )
 
 CHECKS["C17"] = dict(
@@ -395,7 +395,7 @@ CHECKS["C18"] = dict(
          "(FuzzTCP, FuzzUDP) byte strings used as authenticated plaintext (address header + payload, fuzzer-chosen chunk plan) through the TCP handler with in-memory connections, and as datagrams (raw or authenticated, "
          "first-packet and known-association paths) through the packet handler on an in-memory socket with a loopback-only validator; rapid properties in both tiers, coverage-guided native fuzz targets (150 s each) in the thorough tier.",
     assumptions=["destinations in generated headers are local only (no egress); unresolvable names are answered by the in-process DNS", "address classes absent on the host are skipped and counted"],
-    units=[unit("props", ["TCP", "UDP", "FuzzTCP", "FuzzUDP"], "C18", crash_is_violation=True, wedge_is_violation=True),
+    units=[unit("props", ["TCP", "UDP", "ServeStop", "FuzzTCP", "FuzzUDP"], "C18", crash_is_violation=True, wedge_is_violation=True),
            dict(bin="props-fuzz", tests=["FuzzTCP"], run="^$", fuzz="FuzzC18TCP", fuzztime="150s", shards=(1, 1), timeout=(400, 900), tiers=["thorough"], crash_is_violation=True),
            dict(bin="props-fuzz", tests=["FuzzUDP"], run="^$", fuzz="FuzzC18UDP", fuzztime="150s", shards=(1, 1), timeout=(400, 900), tiers=["thorough"], crash_is_violation=True)],
 )
